@@ -36,9 +36,9 @@ ASSUMPTIONS = [
     "a HeterogeneousLinearModel applied at another resolution uses the nearest-neighbour (cv2.INTER_NEAREST) resampling of its original label map",
 ]
 FLOORS = {
-    "quick": {"two_live_objects": 400, "clip": 300, "linear": 300, "combined_composition": 100, "combined_routing": 300, "heterogeneous_linear": 80, "heterogeneous_resolution_history": 100, "combined_routing_grouped": 100, "threshold": 150, "threshold_integer_signals": 500, "kernel_reproduces_values": 60, "kernel_values_updated": 100, "kernel_supports_replaced": 25, "heterogeneous_integer_signals": 150, "combined_with_labelwise_part": 150, "linear_models_on_images": 150, "threshold_3d_label_maps": 100, "combined_vector_valued_dof": 80, "kernel_advanced_updated": 15,
+    "quick": {"two_live_objects": 400, "labelwise_wrapper": 200, "clip": 300, "linear": 300, "combined_composition": 100, "combined_routing": 300, "heterogeneous_linear": 80, "heterogeneous_resolution_history": 100, "combined_routing_grouped": 100, "threshold": 150, "threshold_integer_signals": 500, "kernel_reproduces_values": 60, "kernel_values_updated": 100, "kernel_supports_replaced": 25, "heterogeneous_integer_signals": 150, "combined_with_labelwise_part": 150, "linear_models_on_images": 150, "threshold_3d_label_maps": 100, "combined_vector_valued_dof": 80, "kernel_advanced_updated": 15,
               "kernel_numba_equals_plain_sum": 150, "polynomial_span": 5},
-    "thorough": {"two_live_objects": 4000, "clip": 3000, "linear": 3000, "combined_composition": 1000, "combined_routing": 3000, "heterogeneous_linear": 800, "heterogeneous_resolution_history": 1000, "combined_routing_grouped": 1000, "threshold": 1500, "threshold_integer_signals": 5000, "kernel_reproduces_values": 600, "kernel_values_updated": 1000, "kernel_supports_replaced": 250, "heterogeneous_integer_signals": 1500, "combined_with_labelwise_part": 1500, "linear_models_on_images": 1500, "threshold_3d_label_maps": 1000, "combined_vector_valued_dof": 800, "kernel_advanced_updated": 150,
+    "thorough": {"two_live_objects": 4000, "labelwise_wrapper": 2000, "clip": 3000, "linear": 3000, "combined_composition": 1000, "combined_routing": 3000, "heterogeneous_linear": 800, "heterogeneous_resolution_history": 1000, "combined_routing_grouped": 1000, "threshold": 1500, "threshold_integer_signals": 5000, "kernel_reproduces_values": 600, "kernel_values_updated": 1000, "kernel_supports_replaced": 250, "heterogeneous_integer_signals": 1500, "combined_with_labelwise_part": 1500, "linear_models_on_images": 1500, "threshold_3d_label_maps": 1000, "combined_vector_valued_dof": 800, "kernel_advanced_updated": 150,
                  "kernel_numba_equals_plain_sum": 1500, "polynomial_span": 5},
 }
 SHARD_TIMEOUT = {"quick": 1500, "thorough": 7200}
@@ -172,6 +172,46 @@ def run_shard(spec, R):
                 ea, eb = ref(pa, xs), refb(xs)
                 good = all(np.allclose(np.asarray(v, float), np.asarray(e, float), rtol=1e-14, atol=1e-14) for v, e in ((vals[0], ea), (vals[1], eb), (vals[2], ea)))
                 R.check(bool(good), "two_live_objects", {"model": label, "params_first": pa.tolist(), "params_second": pb.tolist()}, group=label)
+
+        # ============================== the generic label-wise wrapper: one copy of a model per label, each
+        # parametrised on its own, agrees on every region with the homogeneous model of that region
+        hshape = (int(rng.integers(3, 8)), int(rng.integers(3, 8)))
+        hvals = [int(v) for v in rng.choice(9, size=int(rng.integers(1, 6)), replace=False)]
+        hlab = np.array(hvals)[rng.integers(0, len(hvals), size=hshape)]
+        hlab.flat[: len(hvals)] = hvals
+        hlab_img = darsia.Image(hlab.astype(np.uint8), space_dim=2, dimensions=[1.0, 2.0], scalar=True)
+        hsig = rng.uniform(-1, 2, size=hshape)
+        wrappers = [
+            ("LinearModel", lambda: darsia.LinearModel(), lambda p: np.array([p[0], p[1]]), lambda p, x: p[0] * x + p[1]),
+            ("ClipModel", lambda: darsia.ClipModel(), lambda p: np.array([p[1] - 1.0, p[1] + p[0]]), lambda p, x: np.clip(x, p[1] - 1.0, p[1] + p[0])),
+            ("CombinedModel[Linear,Clip]", lambda: darsia.CombinedModel([darsia.LinearModel(), darsia.ClipModel()]), lambda p: np.array([p[0], p[1], -0.25, p[2] + 1.0]),
+             lambda p, x: np.clip(p[0] * x + p[1], -0.25, p[2] + 1.0)),
+            ("CombinedModel[Scaling,Linear]", lambda: darsia.CombinedModel([darsia.ScalingModel(), darsia.LinearModel()]), lambda p: np.array([p[0], p[2], p[1]]),
+             lambda p, x: p[2] * (p[0] * x) + p[1]),
+        ]
+        for wlabel, wmake, wvec, wref in wrappers:
+            case = {"model": "HeterogeneousModel(" + wlabel + ")", "labels": hvals, "shape": list(hshape)}
+            ok, H = R.guarded("labelwise_wrapper", lambda: darsia.HeterogeneousModel(wmake(), hlab_img))
+            if not ok:
+                continue
+            hp = {lv: rng.uniform(0.3, 1.7, size=3) for lv in hvals}
+            order = [hvals[i] for i in rng.permutation(len(hvals))]
+
+            def para():
+                for lv in order:
+                    H[lv].update_model_parameters(wvec(hp[lv]).copy(), None)
+                return H(hsig.copy())
+
+            ok, out = R.guarded("labelwise_wrapper", para)
+            if ok:
+                out = np.asarray(out)
+                exp = np.zeros(hshape)
+                for lv in hvals:
+                    exp[hlab == lv] = wref(hp[lv], hsig)[hlab == lv]
+                R.check(out.shape == hshape and np.allclose(out, exp, rtol=1e-13, atol=1e-13), "labelwise_wrapper",
+                        {**case, "update_order": order, "parameters": {str(k): v.tolist() for k, v in hp.items()},
+                         "max_deviation": float(np.max(np.abs(out - exp))) if out.shape == hshape else None}, group=wlabel)
+        R.sig(["labelwise_wrapper", len(hvals)], len(hvals) > 1, cls="labelwise_wrapper")
 
         # ============================================================ combined
         parts_pool = [
